@@ -1,0 +1,51 @@
+//go:build verif
+
+package storage
+
+// Deterministic-simulation support (build tag verif): read-only key/value
+// scans of the two databases, used by invariant checks.
+
+import (
+	"github.com/dgraph-io/badger/v4"
+)
+
+type SimKV struct {
+	Key   []byte
+	Value []byte
+}
+
+func simDump(db *badger.DB, prefix string, withValues bool) ([]SimKV, error) {
+	txn := db.NewTransaction(false)
+	defer txn.Discard()
+
+	opts := badger.DefaultIteratorOptions
+	opts.PrefetchValues = withValues
+	opts.Prefix = []byte(prefix)
+	it := txn.NewIterator(opts)
+	defer it.Close()
+
+	var out []SimKV
+	for it.Seek([]byte(prefix)); it.Valid(); it.Next() {
+		item := it.Item()
+		kv := SimKV{Key: item.KeyCopy(nil)}
+		if withValues {
+			v, err := item.ValueCopy(nil)
+			if err != nil {
+				return nil, err
+			}
+			kv.Value = v
+		}
+		out = append(out, kv)
+	}
+	return out, nil
+}
+
+// SimDumpGraph lists the durable (snapshots) database under a key prefix.
+func (s *BadgerStore) SimDumpGraph(prefix string, withValues bool) ([]SimKV, error) {
+	return simDump(s.snapshotsDB, prefix, withValues)
+}
+
+// SimDumpCache lists the cache database under a key prefix.
+func (s *BadgerStore) SimDumpCache(prefix string, withValues bool) ([]SimKV, error) {
+	return simDump(s.cacheDB, prefix, withValues)
+}
